@@ -761,13 +761,30 @@ func (m *Matcher) callLabel(fr *frame, c *Call, writer bool) string {
 	return m.relabel(fr, c.Label)
 }
 
-// relabel rewrites a static label ("recv.X") into the frame's canonical space.
+// relabel rewrites a static label ("recv.X", "p0:this.X") into the frame's canonical space.
 func (m *Matcher) relabel(fr *frame, lbl string) string {
-	if fr == nil || fr.ctx.Recv == nil {
+	if fr == nil || lbl == "" {
 		return lbl
 	}
-	if s, ok := fr.subst[fr.ctx.Recv]; ok && s != "recv" && strings.HasPrefix(lbl, "recv") {
-		return s + strings.TrimPrefix(lbl, "recv")
+	head, rest := lbl, ""
+	if i := strings.Index(lbl, "."); i >= 0 {
+		head, rest = lbl[:i], lbl[i:]
+	}
+	if head == "recv" {
+		if fr.ctx.Recv != nil {
+			if s, ok := fr.subst[fr.ctx.Recv]; ok {
+				return s + rest
+			}
+		}
+		return lbl
+	}
+	if strings.HasPrefix(head, "p") && strings.Contains(head, ":") {
+		var idx int
+		if _, err := fmt.Sscanf(head, "p%d:", &idx); err == nil && idx < len(fr.ctx.Params) && fr.ctx.Params[idx] != nil {
+			if s, ok := fr.subst[fr.ctx.Params[idx]]; ok {
+				return s + rest
+			}
+		}
 	}
 	return lbl
 }
